@@ -175,8 +175,158 @@ def gen_preproc(repo, L=None):
             + tr_indent(repo))
 
 
-GENERATORS = {"PreprocChecks": gen_preproc}
+
+# ------------------------------------------------------------------------------------------------ second file: include / define
+def coq_str(x):
+    """a string constant as a Coq `str`; characters that cannot sit in a Coq string literal are given by code point"""
+    if all(32 <= ord(c) < 127 and c != '"' for c in x):
+        return cstr(x)
+    if not all(ord(c) < 128 for c in x):
+        raise RulesError("unsupported characters in a string constant")
+    return "[%s]" % "; ".join("%d%%N" % ord(c) for c in x)
+
+
+SHAPE_PIN.update({"CheckPreprocessorInclude.run": "d02241c968551d36eabb", "CheckPreprocessorInclude.is_in_start_of_file": "328f3d342b7d1de81f67",
+                  "CheckPreprocessorDefine.run": "9fa13218832a255e944d"})
+
+INCLUDE_ROLES = ["id1", "include", "c_start", "string", "quote", "dot_h", "c_header", "more", "id2", "h", "dot", "c_header2"]
+START_ROLES = ["hd1", "hd2", "hd3"]
+DEFINE_ROLES = ["id1", "define", "c_name", "lpar", "c_func", "rpar", "minus", "plus", "bnot", "const1", "ident1", "c_const", "const2", "ident2",
+                "string", "charc", "nl", "c_const2"]
+
+INCLUDE_TEMPLATE = r"""
+(* CheckPreprocessorInclude.is_in_start_of_file: hist = the whole context.history, allowed = context.scope.include_allowed *)
+Definition ppn_in_start (hist : list str) (allowed : bool) : bool :=
+  allowed && forallb (fun r => str_in r [ppn_hd1; ppn_hd2; ppn_hd3]) hist.
+
+(* the <...> branch from `last = ...` on; i3 = the position of the MORE_THAN token *)
+Definition ppn_angle (toks : list token) (less : option token) (i3 : Z) (E1 : list em) : outcome (list em) :=
+  need_tok (peek toks (i3 - 1)) (fun last =>
+  if negb (str_eqb (t_type last) ppn_id2) then emit ppn_c_header2 less E1
+  else if negb (optstr_eqb (t_val last) (Some ppn_h)) then emit ppn_c_header2 less E1
+  else need_tok (peek toks (i3 - 2)) (fun prev =>
+       if negb (str_eqb (t_type prev) ppn_dot) then emit ppn_c_header2 less E1 else Ok E1)).
+
+(* from `i += 1  # skip INCLUDE` on; i1 = the position of the directive name *)
+Definition ppn_file (toks : list token) (i1 : Z) (E1 : list em) : outcome (list em) :=
+  let i2 := skip_ws toks (i1 + 1) in
+  if truthy (check1 toks i2 ppn_string) then
+    need_tok (peek toks i2) (fun ts => need_val (t_val ts) (fun w =>
+      if negb (str_eqb (py_splitext_ext (strip_chars ppn_quote (strip_chars py_ascii_ws w))) ppn_dot_h)
+      then emit ppn_c_header (peek toks i2) E1 else Ok E1))
+  else
+    match scan_until (S (List.length toks)) toks ppn_more i2 with
+    | None => Hang
+    | Some i3 => ppn_angle toks (peek toks i2) i3 E1
+    end.
+
+Definition check_preproc_include (toks : list token) (hist : list str) (allowed : bool) : outcome (list em) :=
+  let h := skip_ws toks 0 in
+  let i1 := skip_ws toks (h + 1) in
+  if is_false (check1 toks i1 ppn_id1) then Ok [] else
+  need_tok (peek toks i1) (fun t1 =>
+  if negb (optstr_eqb (t_val t1) (Some ppn_include)) then Ok [] else
+  bind (if negb (ppn_in_start hist allowed) then emit ppn_c_start (peek toks h) [] else Ok []) (fun E1 =>
+  ppn_file toks i1 E1)).
+"""
+
+DEFINE_TEMPLATE = r"""
+(* the end of the value: `i = skip_ws(i, comment=True)` and the last test *)
+Definition ppd_tail (toks : list token) (i : Z) (E2 : list em) : outcome (list em) :=
+  let i7 := skip_ws_c toks i in
+  if is_some (peek toks i7) && negb (truthy (check1 toks i7 ppd_nl)) then emit ppd_c_const2 (peek toks i7) E2 else Ok E2.
+
+(* the value of the macro, from `if context.check_token(i, ("MINUS", ...))` on *)
+Definition ppd_value (toks : list token) (i5 : Z) (E2 : list em) : outcome (list em) :=
+  if truthy (checkl toks i5 [ppd_minus; ppd_plus; ppd_bnot]) then
+    let i6 := skip_ws toks (i5 + 1) in
+    if negb (truthy (checkl toks i6 [ppd_const1; ppd_ident1])) then emit ppd_c_const (or_tok (peek toks i6) (peek toks (i6 - 1))) E2
+    else ppd_tail toks (i6 + 1) E2
+  else if truthy (checkl toks i5 [ppd_const2; ppd_ident2; ppd_string; ppd_charc]) then ppd_tail toks (i5 + 1) E2
+  else ppd_tail toks i5 E2.
+
+(* from `i += 1  # skip macro name` on; i3 = the position after the name; skip = context.preproc.skip_define *)
+Definition ppd_after_name (toks : list token) (i3 : Z) (skip : bool) (E1 : list em) : outcome (list em) :=
+  bind (if truthy (check1 toks i3 ppd_lpar)
+        then bind (emit ppd_c_func (peek toks i3) E1) (fun E2 =>
+             match scan_until (S (List.length toks)) toks ppd_rpar i3 with None => Hang | Some j => Ok (E2, j + 1) end)
+        else Ok (E1, i3)) (fun p =>
+  let i5 := skip_ws toks (snd p) in
+  if skip then Ok (fst p) else ppd_value toks i5 (fst p)).
+
+Definition check_preproc_define (toks : list token) (skip : bool) : outcome (list em) :=
+  let i1 := skip_ws toks (skip_ws toks 0 + 1) in
+  if negb (truthy (check1 toks i1 ppd_id1)) then Ok [] else
+  need_tok (peek toks i1) (fun t1 =>
+  if negb (optstr_eqb (t_val t1) (Some ppd_define)) then Ok [] else
+  let i2 := skip_ws toks (i1 + 1) in
+  need_tok (peek toks i2) (fun tn => need_val (t_val tn) (fun w =>
+  bind (if negb (py_isupper_ascii w) then emit ppd_c_name (peek toks i2) [] else Ok []) (fun E1 =>
+  ppd_after_name toks (i2 + 1) skip E1)))).
+"""
+
+
+def _method_consts(repo, rel, cname, mname, roles, prefix):
+    tree = parse(repo, rel)
+    cls = find_class(tree, cname)
+    fn = find_method(cls, mname)
+    if fn.decorator_list:
+        fail(fn, "decorated method")
+    fp, consts = shape_and_constants(fn)
+    key = "%s.%s" % (cname, mname)
+    if fp != SHAPE_PIN[key]:
+        fail(fn, "the shape of %s changed (now %s): the template of tools/translate_preproc.py no longer applies" % (key, fp))
+    if len(consts) != len(roles):
+        fail(fn, "%s: %d string constants, %d expected" % (key, len(consts), len(roles)))
+    return tree, cls, ["Definition %s_%s : str := %s.\n" % (prefix, r, coq_str(c)) for r, c in zip(roles, consts)]
+
+
+def _depends(cls):
+    for n in cls.body:
+        if isinstance(n, ast.Assign) and same(n.targets[0], "depends_on", "expr"):
+            if not (isinstance(n.value, (ast.Tuple, ast.List)) and all(isinstance(e, ast.Constant) and isinstance(e.value, str) for e in n.value.elts)):
+                fail(n, "depends_on")
+            return [e.value for e in n.value.elts]
+    fail(cls, "%s has no depends_on" % cls.name)
+
+
+def tr_include(repo):
+    rel = "norminette/rules/check_preprocessor_include.py"
+    tree, cls, out = _method_consts(repo, rel, "CheckPreprocessorInclude", "run", INCLUDE_ROLES, "ppn")
+    _, _, out2 = _method_consts(repo, rel, "CheckPreprocessorInclude", "is_in_start_of_file", START_ROLES, "ppn")
+    names = [n.name for n in cls.body if isinstance(n, ast.FunctionDef)]
+    if names != ["run", "is_in_start_of_file"]:
+        fail(cls, "methods of CheckPreprocessorInclude: %s" % names)
+    mods = sorted(a.name for n in tree.body if isinstance(n, ast.Import) for a in n.names if a.asname is None)
+    if mods != ["itertools", "os.path"]:
+        fail(tree, "imports of check_preprocessor_include.py: %s (os.path.splitext and itertools.filterfalse are modelled by hand)" % mods)
+    out += out2
+    out.append("Definition ppn_depends_on : list str := [%s].\n" % "; ".join(cstr(d) for d in _depends(cls)))
+    out.append(INCLUDE_TEMPLATE)
+    return "".join(out)
+
+
+def tr_define(repo):
+    rel = "norminette/rules/check_preprocessor_define.py"
+    tree, cls, out = _method_consts(repo, rel, "CheckPreprocessorDefine", "run", DEFINE_ROLES, "ppd")
+    names = [n.name for n in cls.body if isinstance(n, ast.FunctionDef)]
+    if names != ["run"]:
+        fail(cls, "methods of CheckPreprocessorDefine: %s" % names)
+    out.append("Definition ppd_depends_on : list str := [%s].\n" % "; ".join(cstr(d) for d in _depends(cls)))
+    out.append(DEFINE_TEMPLATE)
+    return "".join(out)
+
+
+def gen_preproc2(repo, L=None):
+    return ("(* GENERATED by tools/translate_preproc.py - do not edit *)\n"
+            "From Coq Require Import List ZArith Bool NArith.\nImport ListNotations.\n"
+            "From NV Require Import Model.Base Model.Lexer Model.RuleChecks Model.PreprocBase Model.PreprocBase2.\nOpen Scope Z_scope.\n\n"
+            "(* CheckPreprocessorInclude.run *)\n" + tr_include(repo)
+            + "\n(* CheckPreprocessorDefine.run *)\n" + tr_define(repo))
+
+
+GENERATORS = {"PreprocChecks": gen_preproc, "PreprocChecks2": gen_preproc2}
 
 if __name__ == "__main__":
     import sys
-    sys.stdout.write(gen_preproc(sys.argv[1] if len(sys.argv) > 1 else "/repo"))
+    sys.stdout.write((gen_preproc2 if len(sys.argv) > 2 else gen_preproc)(sys.argv[1] if len(sys.argv) > 1 else "/repo"))
